@@ -43,7 +43,7 @@ class Play:
     """one run of the binary"""
 
     def __init__(self, text, args=None, outdir_arg=None, timeout=60, env=None, extra_files=None,
-                 keep=False, sigspec=None, cfg_name="play.cfg", points=None):
+                 keep=False, sigspec=None, cfg_name="play.cfg", points=None, tty_cols=None):
         self.text = text
         self.args = list(args or [])
         self.outdir_arg = outdir_arg      # as given to -o (may be relative to cwd)
@@ -54,6 +54,7 @@ class Play:
         self.sigspec = sigspec            # (delay_s, signal) delivered to the shakespeare process
         self.cfg_name = cfg_name
         self.points = points              # VERIF_POINTS for the verif-tagged binary (steers schedules)
+        self.tty_cols = tty_cols          # standard output is a pseudo-terminal that many columns wide
 
     def run(self):
         self.cwd = tempfile.mkdtemp(prefix="verif-play-")
@@ -82,8 +83,30 @@ class Play:
         if self.env:
             env.update(self.env)
         t0 = time.time()
-        p = subprocess.Popen(argv, cwd=self.cwd, env=env, stdout=subprocess.PIPE, stderr=subprocess.PIPE,
-                             stdin=subprocess.DEVNULL, text=True, start_new_session=True)
+        tty_out, tty_thread = [], None
+        if self.tty_cols is not None:
+            import pty, fcntl, termios, struct, threading
+            master, slave = pty.openpty()
+            fcntl.ioctl(slave, termios.TIOCSWINSZ, struct.pack("HHHH", 24, self.tty_cols, 0, 0))
+            p = subprocess.Popen(argv, cwd=self.cwd, env=env, stdout=slave, stderr=subprocess.PIPE,
+                                 stdin=subprocess.DEVNULL, text=True, start_new_session=True)
+            os.close(slave)
+
+            def drain():
+                while True:
+                    try:
+                        d = os.read(master, 65536)
+                    except OSError:
+                        break
+                    if not d:
+                        break
+                    tty_out.append(d)
+                os.close(master)
+            tty_thread = threading.Thread(target=drain, daemon=True)
+            tty_thread.start()
+        else:
+            p = subprocess.Popen(argv, cwd=self.cwd, env=env, stdout=subprocess.PIPE, stderr=subprocess.PIPE,
+                                 stdin=subprocess.DEVNULL, text=True, start_new_session=True)
         timed_out = False
         if self.sigspec:
             delay, sig = self.sigspec
@@ -108,6 +131,9 @@ class Play:
                     pass
                 out, err = p.communicate()
         wall = time.time() - t0
+        if tty_thread is not None:
+            tty_thread.join(2)
+            out = b"".join(tty_out).decode("utf-8", "replace")
         odir = oarg if os.path.isabs(oarg) else os.path.normpath(os.path.join(self.cwd, oarg))
         res = {"rc": p.returncode, "stdout": out, "stderr": err, "wall": wall, "timed_out": timed_out,
                "cwd": self.cwd, "odir": odir, "argv": argv[1:]}
